@@ -239,21 +239,21 @@ Lemma validate_unfold allowed route_ns r :
        end.
 Proof. reflexivity. Qed.
 
-Lemma ref_shape_ok_unfold r :
-  ref_shape_ok r =
+Lemma ref_kind_ok_unfold r :
+  ref_kind_ok r =
   negb (match br_group r with Some g => negb ((g =? "core") || (g =? "")) | None => false end) &&
   negb (match br_kind r with Some k => negb (k =? "Service") | None => false end).
 Proof.
-  unfold ref_shape_ok. destruct (br_group r), (br_kind r); simpl; rewrite ?negb_involutive; reflexivity.
+  unfold ref_kind_ok. destruct (br_group r), (br_kind r); simpl; rewrite ?negb_involutive; reflexivity.
 Qed.
 
 (* a backendRef passes validation only if it is local or granted *)
 Lemma validate_none gs k route_ns r :
   wf_grants gs ->
   validate_backend_ref (resolver_for gs k route_ns) route_ns r = None ->
-  ref_shape_ok r = true /\ backend_permitted gs k route_ns r /\ exists p, br_port r = Some p.
+  ref_kind_ok r = true /\ backend_permitted gs k route_ns r /\ exists p, br_port r = Some p.
 Proof.
-  intros Hwf. rewrite validate_unfold, ref_shape_ok_unfold.
+  intros Hwf. rewrite validate_unfold, ref_kind_ok_unfold.
   destruct (match br_group r with Some g => _ | None => false end); [discriminate|].
   destruct (match br_kind r with Some k0 => _ | None => false end); [discriminate|].
   destruct (ns_check _ route_ns r) eqn:Hc; [discriminate|].
@@ -266,10 +266,10 @@ Qed.
 Lemma validate_denied gs k route_ns r :
   wf_grants gs -> ~ backend_permitted gs k route_ns r ->
   (exists c, validate_backend_ref (resolver_for gs k route_ns) route_ns r = Some c) /\
-  (ref_shape_ok r = true ->
+  (ref_kind_ok r = true ->
    validate_backend_ref (resolver_for gs k route_ns) route_ns r = Some c_route_ref_not_permitted).
 Proof.
-  intros Hwf Hden. rewrite validate_unfold, ref_shape_ok_unfold.
+  intros Hwf Hden. rewrite validate_unfold, ref_kind_ok_unfold.
   assert (Hc : ns_check (resolver_for gs k route_ns) route_ns r = true).
   { destruct (ns_check _ route_ns r) eqn:Hc; [reflexivity|].
     apply (ns_check_false_iff gs k route_ns r Hwf) in Hc. contradiction. }
@@ -283,11 +283,11 @@ Qed.
 
 (* the positive direction: a well-formed, permitted reference to an existing Service port is valid *)
 Lemma validate_permitted gs k route_ns r p :
-  wf_grants gs -> ref_shape_ok r = true -> backend_permitted gs k route_ns r ->
+  wf_grants gs -> ref_kind_ok r = true -> backend_permitted gs k route_ns r ->
   br_port r = Some p -> (forall w, br_weight r = Some w -> weight_ok w = true) ->
   validate_backend_ref (resolver_for gs k route_ns) route_ns r = None.
 Proof.
-  intros Hwf Hshape Hperm Hport Hw. rewrite validate_unfold. rewrite ref_shape_ok_unfold in Hshape.
+  intros Hwf Hshape Hperm Hport Hw. rewrite validate_unfold. rewrite ref_kind_ok_unfold in Hshape.
   apply andb_true_iff in Hshape. destruct Hshape as [H1 H2].
   apply negb_true_iff in H1. apply negb_true_iff in H2. rewrite H1, H2.
   apply (ns_check_false_iff gs k route_ns r Hwf) in Hperm. rewrite Hperm, Hport.
@@ -296,6 +296,12 @@ Qed.
 
 Definition create_for (k : route_kind) :=
   match k with KTLS => create_backend_ref_tls | _ => create_backend_ref end.
+
+Lemma shape_ok_split r : ref_shape_ok r = true <-> br_filters r = false /\ ref_kind_ok r = true.
+Proof. unfold ref_shape_ok. rewrite andb_true_iff, negb_true_iff. tauto. Qed.
+
+Ltac unfold_create :=
+  simpl; unfold create_backend_ref, create_backend_ref_tls, validate_route_backend_ref.
 
 Lemma create_valid gs k route_ns svcs r :
   wf_grants gs ->
@@ -308,7 +314,7 @@ Proof.
               (c = None -> backend_permitted gs k route_ns r)).
   { intros c Hc Hn. subst c. apply (validate_none gs k route_ns r Hwf) in Hn. tauto. }
   specialize (H _ eq_refl).
-  destruct k; simpl; unfold create_backend_ref, create_backend_ref_tls;
+  destruct k; unfold_create; try (destruct (br_filters r); simpl; try discriminate);
     destruct (validate_backend_ref _ route_ns r); simpl; try discriminate;
     destruct (service_port svcs (ref_target route_ns r) (br_port r)); simpl; try discriminate;
     intros _; auto.
@@ -326,7 +332,7 @@ Proof.
               (c = None -> backend_permitted gs k route_ns r)).
   { intros c Hc Hn. subst c. apply (validate_none gs k route_ns r Hwf) in Hn. tauto. }
   specialize (H _ eq_refl).
-  destruct k; simpl; unfold create_backend_ref, create_backend_ref_tls;
+  destruct k; unfold_create; try (destruct (br_filters r); simpl; try congruence);
     destruct (validate_backend_ref _ route_ns r); simpl; try congruence;
     destruct (service_port svcs (ref_target route_ns r) (br_port r)); simpl; auto.
 Qed.
@@ -338,8 +344,13 @@ Lemma create_denied gs k route_ns svcs r :
   (ref_shape_ok r = true -> snd res = Some c_route_ref_not_permitted).
 Proof.
   intros Hwf Hden. destruct (validate_denied gs k route_ns r Hwf Hden) as [[c Hc] Hs].
-  destruct k; simpl; unfold create_backend_ref, create_backend_ref_tls; rewrite Hc; simpl;
-    (split; [reflexivity|]); (split; [reflexivity|]); intros Hok; rewrite (Hs Hok) in Hc; congruence.
+  destruct k; unfold_create;
+    try (destruct (br_filters r) eqn:Hf; simpl;
+         [split; [reflexivity|]; split; [reflexivity|]; intros Hok; apply shape_ok_split in Hok;
+          destruct Hok; congruence|]);
+    rewrite Hc; simpl;
+    (split; [reflexivity|]); (split; [reflexivity|]); intros Hok; apply shape_ok_split in Hok;
+    destruct Hok as [_ Hok]; rewrite (Hs Hok) in Hc; congruence.
 Qed.
 
 Lemma create_permitted gs k route_ns svcs r p ports :
@@ -349,14 +360,14 @@ Lemma create_permitted gs k route_ns svcs r p ports :
   create_for k (resolver_for gs k route_ns) svcs route_ns r =
     (BO true (ref_target route_ns r) p (match k with KTLS => 0%Z | _ => l7_weight r end), None).
 Proof.
-  intros Hwf Hshape Hperm Hport Hw Hsvc Hin.
-  pose proof (validate_permitted gs k route_ns r p Hwf Hshape Hperm Hport Hw) as Hv.
+  intros Hwf Hshape Hperm Hport Hw Hsvc Hin. apply shape_ok_split in Hshape. destruct Hshape as [Hf Hkind].
+  pose proof (validate_permitted gs k route_ns r p Hwf Hkind Hperm Hport Hw) as Hv.
   assert (Hsp : service_port svcs (ref_target route_ns r) (br_port r) = Some p).
   { unfold service_port. rewrite Hsvc, Hport.
     assert (He : existsb (Z.eqb p) ports = true).
     { apply existsb_exists. exists p. split; [exact Hin|apply Z.eqb_refl]. }
     rewrite He. reflexivity. }
-  destruct k; simpl; unfold create_backend_ref, create_backend_ref_tls; rewrite Hv, Hsp; reflexivity.
+  destruct k; unfold_create; rewrite ?Hf, Hv, Hsp; reflexivity.
 Qed.
 
 (* ------------------------------------------------------------------ routes *)
@@ -507,7 +518,7 @@ Proof.
   set (a2 := fun to => ref_allowed R2 to (from_route (ri_kind ri) (ri_ns ri))).
   assert (Ha : forall to, a1 to = a2 to) by (intros to; apply H).
   assert (Hc : forall r, create_backend_ref a1 svcs (ri_ns ri) r = create_backend_ref a2 svcs (ri_ns ri) r).
-  { intros r. unfold create_backend_ref. rewrite (validate_ext a1 a2 _ _ Ha). reflexivity. }
+  { intros r. unfold create_backend_ref, validate_route_backend_ref. rewrite (validate_ext a1 a2 _ _ Ha). reflexivity. }
   assert (Ht : forall r, create_backend_ref_tls a1 svcs (ri_ns ri) r = create_backend_ref_tls a2 svcs (ri_ns ri) r).
   { intros r. unfold create_backend_ref_tls. rewrite (validate_ext a1 a2 _ _ Ha). reflexivity. }
   assert (L7 : build_l7 a1 svcs (ri_ns ri) (ri_rules ri) = build_l7 a2 svcs (ri_ns ri) (ri_rules ri)).
@@ -899,9 +910,9 @@ Qed.
 Definition ex_world : world :=
   World "ns-a"
         [LI "http" PHTTP []; LI "https" PHTTPS [CR None (Some "Secret") "sec1" (Some "ns-b")]]
-        [RI KHTTP "ns-a" "r0" [[BR None None "svc1" (Some "ns-b") (Some 80%Z) None;
-                                BR None None "svc1" None (Some 80%Z) (Some 3%Z)]];
-         RI KTLS "ns-c" "t0" [[BR (Some "core") (Some "Service") "svc1" (Some "ns-b") (Some 80%Z) None]]]
+        [RI KHTTP "ns-a" "r0" [[BR None None "svc1" (Some "ns-b") (Some 80%Z) None false;
+                                BR None None "svc1" None (Some 80%Z) (Some 3%Z) false]];
+         RI KTLS "ns-c" "t0" [[BR (Some "core") (Some "Service") "svc1" (Some "ns-b") (Some 80%Z) None false]]]
         [(("ns-b", "svc1"), [80%Z]); (("ns-a", "svc1"), [8080%Z; 80%Z])]
         [(("ns-b", "sec1"), true)].
 
